@@ -171,6 +171,40 @@ def check_case(c):
     return out
 
 
+FRONT = ["", "---\ntags: soup, quick\n---\n\n", "---\ntitle: x\ndate: 2020-01-01\n...\n\n", "---\n\n---\n"]
+
+
+def check_file_route(c, scratch, front="", eol=None):
+    """the same document read from a file (the way the site generator, the stand-alone page and the commands read it): each of the three
+    line-ending conventions a text file may use, optionally after a few leading lines of the kind other tools put first - the reported line is
+    the line of the file"""
+    import re
+    from recipe_grid.static_site.recipe_directory import compile_recipe_markdown, RecipeInDirectoryCompileError
+    doc = c["document"]
+    if front and doc.startswith("\ufeff"):
+        front = ""
+    eol = eol or c["eol"]
+    text = (front + doc.replace("\r\n", "\n")).replace("\n", eol)
+    path = scratch / "recipe.md"
+    path.write_bytes(text.encode("utf-8"))
+    name = {"\n": "lf", "\r\n": "crlf", "\r": "cr"}[eol]
+    want = c["line"] + front.count("\n")
+    try:
+        compile_recipe_markdown(path, False, False)
+    except RecipeInDirectoryCompileError as e:
+        m = re.search(r"At line (\d+) column (\d+):\n    ([^\n]*)\n", str(e))
+        if not m:
+            return [("C19:file-route:no-position:%s" % name, str(e)[:200])]
+        if int(m.group(1)) != want:
+            return [("C19:file-route:wrong-line:%s" % name, "%s at line %d of the file (%r lines first) reported at line %s" % (c["kind"], want, front, m.group(1)))]
+        if m.group(3).rstrip() != c["snippet"].rstrip():     # the message shows the line without trailing blanks
+            return [("C19:file-route:wrong-snippet:%s" % name, "quoted %r, the line's recipe text is %r" % (m.group(3), c["snippet"]))]
+        return []
+    except Exception as e:  # noqa
+        return [("C19:file-route:fault-not-reported:%s" % name, "%s: %s" % (type(e).__name__, str(e)[:150]))]
+    return [("C19:file-route:fault-not-reported:%s" % name, "the file compiles")]
+
+
 def correspondence(run):
     # the padded source of every observed block equals the model's padding
     reqs, meta = [], []
@@ -272,16 +306,39 @@ def syntax_position_correspondence(run):
 
 
 def oracle(run):
-    for _ in range(run.budget(500, 12000)):
-        eol = run.rng.choice(["\n", "\n", "\r\n"])
-        c = gen_case(run.rng, eol)
-        run.case(("oracle", c["document"]), True, kind=c["kind"] + ":" + ("crlf" if eol == "\r\n" else "lf"),
-                 sample={"document": c["document"][:200], "fault": c["kind"], "line": c["line"]})
-        for sig, detail in check_case(c):
-            run.violate(sig, detail, c)
+    import shutil
+    from .. import gen_site
+    scratch = gen_site.scratch_root()
+    try:
+        for i in range(run.budget(500, 12000)):
+            eol = run.rng.choice(["\n", "\n", "\r\n"])
+            c = gen_case(run.rng, eol)
+            run.case(("oracle", c["document"]), True, kind=c["kind"] + ":" + ("crlf" if eol == "\r\n" else "lf"),
+                     sample={"document": c["document"][:200], "fault": c["kind"], "line": c["line"]})
+            res = check_case(c)
+            for sig, detail in res:
+                run.violate(sig, detail, c)
+            if not res and i % 4 == 0:
+                front, feol = FRONT[(i // 4) % len(FRONT)], ["\n", "\r\n", "\r"][(i // 16) % 3]
+                run.case(("file", front, feol, c["document"]), True, kind="file-route:" + {"\n": "lf", "\r\n": "crlf", "\r": "cr"}[feol] + (":front-lines" if front else ""))
+                for sig, detail in check_file_route(c, scratch, front, feol):
+                    run.violate(sig, detail, dict(c, file_route=[front, feol]))
+    finally:
+        shutil.rmtree(scratch, ignore_errors=True)
 
 
 def replay(run, obj):
+    if obj["replay"].get("file_route"):
+        import shutil
+        from .. import gen_site
+        scratch = gen_site.scratch_root()
+        try:
+            res = check_file_route(obj["replay"], scratch, *obj["replay"]["file_route"])
+        finally:
+            shutil.rmtree(scratch, ignore_errors=True)
+        for x in res:
+            print(*x)
+        return bool(res)
     res = check_case(obj["replay"])
     for x in res:
         print(*x)
